@@ -699,5 +699,169 @@ func lastPart(res string) string {
 }
 
 func (f *ontFam) genHdr(r *hx.Run) {
-	r.Rule("todo")
+	r.Rule("ONT header-sync histories: genesis peer set of 1..10 keys, then headers in ANY height order: 15 signer-list shapes against the " +
+		"set in force, configuration-changing headers (new peer sets of 1..10 keys, also with repeated ids) above, between and below existing key " +
+		"heights, headers between key heights submitted after the later configuration is recorded, headers signed by the wrong epoch's set, " +
+		"stored heights again, heights at/below the lowest key height, non-JSON consensus payload, a second genesis, cross-chain messages " +
+		"interleaved; state (key heights, peer sets, stored heights) dumped and compared; distinct non-trivial = (set size, step kind, outcome)")
+	rounds := r.Pick(5, 100)
+	id := 0
+	for round := 0; round < rounds; round++ {
+		for n := 1; n <= 10; n++ {
+			id++
+			r.Case(fmt.Sprintf("onthdr-%d-%d", n, id))
+			type epoch struct {
+				h   uint32
+				set []int
+			}
+			g := uint32(10 + r.Rng.Intn(10))
+			epochs := []epoch{{g, r.Rng.Perm(ontPool)[:n]}}
+			r.Do(fmt.Sprintf("genesis %d %s", g, idxList(epochs[0].set)))
+			used := map[uint32]bool{g: true}
+			nonce := 0
+			// the set in force for height h according to the history so far (greatest key height below h)
+			inForce := func(h uint32) ([]int, bool) {
+				best := -1
+				for i, e := range epochs {
+					if e.h < h && (best < 0 || e.h > epochs[best].h || (e.h == epochs[best].h && i > best)) {
+						best = i
+					}
+				}
+				if best < 0 {
+					return nil, false
+				}
+				return epochs[best].set, true
+			}
+			fresh := func(lo, hi uint32) uint32 {
+				for k := 0; k < 50; k++ {
+					h := lo + uint32(r.Rng.Intn(int(hi-lo+1)))
+					if !used[h] {
+						return h
+					}
+				}
+				return hi + 1 + uint32(r.Rng.Intn(1000))
+			}
+			top := func() uint32 {
+				m := uint32(0)
+				for _, e := range epochs {
+					if e.h > m {
+						m = e.h
+					}
+				}
+				return m
+			}
+			rec := func(label, res string, sz int) {
+				r.Nontrivial(fmt.Sprintf("%d/%s/%s", sz, label, res))
+				r.Hist("step." + label)
+				r.Hist("outcome." + res)
+			}
+			hdr := func(h uint32, cfg string, bks []int, sigs string) string {
+				nonce++
+				res := r.Do(fmt.Sprintf("hdr %d %d %s %s %s", h, nonce, cfg, idxList(bks), sigs))
+				if res == "ok" || res == "reject:payload" {
+					used[h] = true
+				}
+				return res
+			}
+			for step := 0; step < nShapes+14; step++ {
+				switch {
+				case step < nShapes: // every signer shape against the set in force at a fresh height anywhere above genesis
+					h := fresh(g+1, top()+40)
+					set, _ := inForce(h)
+					bks, sigs, label := signerShape(r, set, step)
+					rec("shape-"+label, hdr(h, "-", bks, sigs), len(set))
+				case step == nShapes || step == nShapes+6: // configuration change above every key height
+					h := fresh(top()+1, top()+30)
+					set, _ := inForce(h)
+					bks, sigs, _ := signerShape(r, set, 2)
+					ns := r.Rng.Perm(ontPool)[:1+r.Rng.Intn(10)]
+					cfg := idxList(ns)
+					if r.Rng.Chance(1, 4) { // repeated id in the configuration
+						cfg = cfg + "," + strconv.Itoa(ns[0])
+					}
+					res := hdr(h, cfg, bks, sigs)
+					rec("config-above", res, len(set))
+					if res == "ok" {
+						epochs = append(epochs, epoch{h, ns})
+					}
+				case step == nShapes+1: // header for the new epoch signed by the OLD set
+					h := fresh(top()+1, top()+20)
+					old := epochs[0].set
+					bks, sigs, _ := signerShape(r, old, 2)
+					rec("old-set-after-change", hdr(h, "-", bks, sigs), len(old))
+				case step == nShapes+2 || step == nShapes+8: // configuration change BETWEEN existing key heights (out of order)
+					if top() <= g+2 {
+						continue
+					}
+					h := fresh(g+1, top()-1)
+					set, _ := inForce(h)
+					bks, sigs, _ := signerShape(r, set, 2)
+					ns := r.Rng.Perm(ontPool)[:1+r.Rng.Intn(10)]
+					res := hdr(h, idxList(ns), bks, sigs)
+					rec("config-between", res, len(set))
+					if res == "ok" {
+						epochs = append(epochs, epoch{h, ns})
+					}
+				case step == nShapes+3 || step == nShapes+9: // header between key heights, after later configurations are known
+					if top() <= g+2 {
+						continue
+					}
+					h := fresh(g+1, top()-1)
+					set, _ := inForce(h)
+					bks, sigs, _ := signerShape(r, set, 0)
+					rec("between-right-set", hdr(h, "-", bks, sigs), len(set))
+					// and one signed by the newest set instead
+					h2 := fresh(g+1, top()-1)
+					newest, _ := inForce(top() + 1)
+					bks2, sigs2, _ := signerShape(r, newest, 2)
+					rec("between-newest-set", hdr(h2, "-", bks2, sigs2), len(newest))
+				case step == nShapes+4: // a stored height again (any content)
+					for h := range used {
+						rec("stored-again", hdr(h, "-", nil, "-"), 0)
+						break
+					}
+				case step == nShapes+5: // at / below the lowest key height
+					lo := g
+					for _, e := range epochs {
+						if e.h < lo {
+							lo = e.h
+						}
+					}
+					set := epochs[0].set
+					bks, sigs, _ := signerShape(r, set, 2)
+					h := lo - uint32(1+r.Rng.Intn(3))
+					if used[h] {
+						continue
+					}
+					rec("below-lowest", hdr(h, "-", bks, sigs), len(set))
+				case step == nShapes+7: // consensus payload that is not JSON: verified and stored, then the update fails
+					h := fresh(top()+1, top()+20)
+					set, _ := inForce(h)
+					bks, sigs, _ := signerShape(r, set, 2)
+					rec("bad-payload", hdr(h, "!", bks, sigs), len(set))
+				case step == nShapes+10: // second genesis (operator): a further key height without any signature check
+					h := fresh(g+1, top()+10)
+					ns := r.Rng.Perm(ontPool)[:1+r.Rng.Intn(10)]
+					res := r.Do(fmt.Sprintf("genesis %d %s", h, idxList(ns)))
+					rec("second-genesis", res, len(ns))
+					used[h] = true
+					epochs = append(epochs, epoch{h, ns})
+				case step == nShapes+11: // cross-chain messages choose their set the same way
+					h := fresh(g+1, top()+20)
+					set, _ := inForce(h)
+					bks, sigs, _ := signerShape(r, set, 0)
+					rec("msg-right-set", r.Do(fmt.Sprintf("msg %d %s %s", h, idxList(bks), sigs)), len(set))
+				default:
+					h := fresh(g+1, top()+20)
+					set, _ := inForce(h)
+					bks, sigs, label := signerShape(r, set, r.Rng.Intn(nShapes))
+					rec("rand-"+label, hdr(h, "-", bks, sigs), len(set))
+				}
+			}
+			st := r.Do("state")
+			if id%13 == 1 {
+				r.Sample(map[string]interface{}{"epochs": len(epochs), "state": st})
+			}
+		}
+	}
 }
